@@ -19,6 +19,8 @@ NoEv == [ev |-> "none"]
 
 \* ---- named tolerances (quantised by 1e8)
 ErrTol   == 200        \* 2e-6 absolute on a relative error (the norm shortcut loses half the digits near 0)
+ErrTol32 == 200000     \* 2e-3 when the data is held in single precision (eps = 1.2e-7, same shortcut)
+ErrTolOf(cc) == IF cc.single THEN ErrTol32 ELSE ErrTol
 MonoTol  == 50         \* 5e-7: an exact block update may not increase the relative error by more than this
 CondMax  == 6          \* monotonicity is asserted only when cond(Hadamard of Grams) <= 1e6 at both iterates
 OrthTol  == 100        \* 1e-6 on max|F^T F - I|
@@ -52,8 +54,8 @@ IsPrefixWithin(p, s, tol) ==
 \* C06 -- reported errors are finite and equal the true error of the iterate they belong to
 \* the documentation of cmtf writes its objective with a factor 1/2, the code without: accept both readings
 LastOK(c, last, true) ==
-    \/ Abs(last - true) <= ErrTol
-    \/ (c.alg = "cmtf" /\ Abs(2 * last - true) <= ErrTol)
+    \/ Abs(last - true) <= ErrTolOf(cur.cfg)
+    \/ (c.alg = "cmtf" /\ Abs(2 * last - true) <= ErrTolOf(cur.cfg))
 
 V06(e) ==
     LET c == MC(cur.cfg, e.k) IN
@@ -62,7 +64,7 @@ V06(e) ==
     ELSE IF e.n_errs < 0 THEN "ok"                     \* this call exposes no list
     ELSE IF ~(Len(e.errs) \in LenSet(c)) THEN "ErrsLen"      \* LenSet = lengths of the model's Return states (Driver.tla)
     ELSE IF Len(e.errs) > 0 /\ ~LastOK(c, e.errs[Len(e.errs)], e.true) THEN "LastErrorIsNotErrorOfReturned"
-    ELSE IF PrefixStable(c) /\ prev.ev = "Prefix" /\ prev.n_errs >= 0 /\ ~IsPrefixWithin(prev.errs, e.errs, 1)
+    ELSE IF PrefixStable(c) /\ prev.ev = "Prefix" /\ prev.n_errs >= 0 /\ ~IsPrefixWithin(prev.errs, e.errs, IF cur.cfg.single THEN 100 ELSE 1)
          THEN "NotPrefixOfLongerRun"
     ELSE "ok"
 
@@ -70,7 +72,7 @@ V06cb(e) ==
     IF ~e.has_err THEN (IF cur.alg = "rand_parafac" /\ e.j = 0 THEN "ok" ELSE "CallbackWithoutError")
     ELSE IF ~IsInt(e.err) THEN "CallbackErrorNotFinite"
     ELSE IF ~IsInt(e.true) THEN "CallbackIterateNotFinite"
-    ELSE IF Abs(e.err - e.true) > ErrTol THEN "CallbackErrorIsNotErrorOfIterate"
+    ELSE IF Abs(e.err - e.true) > ErrTolOf(cur.cfg) THEN "CallbackErrorIsNotErrorOfIterate"
     ELSE "ok"
 
 ----------------------------------------------------------------------------
